@@ -12,6 +12,28 @@ use std::{
 ///
 /// Equal to `nc.send_message`.
 #[allow(dead_code)]
+/// Whether a `SendBlock` message decoded in compatible mode must be refused as malformed.
+///
+/// Compatible decoding accepts unknown trailing fields without looking at them. A block may
+/// carry exactly one: the extension, which must then be a well-formed `Bytes` (i.e. the block
+/// must verify as a `BlockV1`). Accessors such as `Block::extension()` / `into_view()` unwrap
+/// that field and would panic on anything else.
+pub(crate) fn send_block_is_malformed(reader: &packed::SendBlockReader) -> bool {
+    let block = reader.block();
+    reader.has_extra_fields()
+        || block.count_extra_fields() > 1
+        || (block.count_extra_fields() == 1
+            && packed::BlockV1Reader::verify(block.as_slice(), false).is_err())
+}
+
+/// Whether a `CompactBlock` decoded in compatible mode must be refused as malformed; see
+/// [`send_block_is_malformed`].
+pub(crate) fn compact_block_is_malformed(reader: &packed::CompactBlockReader) -> bool {
+    reader.count_extra_fields() > 1
+        || (reader.count_extra_fields() == 1
+            && packed::CompactBlockV1Reader::verify(reader.as_slice(), false).is_err())
+}
+
 pub(crate) fn send_message<Message: Entity>(
     protocol_id: ProtocolId,
     nc: &dyn CKBProtocolContext,
